@@ -110,3 +110,34 @@ _m("C14", "rolled twins through the same real code on uniform periodic meshes: 1
           "(euler2d x {centered,hlle} x {extrapol2d1, extrapol2dk(k)} x explicit integrators), compared bitwise.  non-trivial: "
           "finite non-zero residual; distinct = hash(config + data + shift).",
    exhaustive_groups=["shift1d ((n,k) pairs for n=1..12)", "shift2d ((nx,ny,kx,ky) for nx,ny=1..5)"])
+
+_m("C15", "random 2D Euler problems (nx,ny=1..6, lx!=ly, {centered,hlle} x {extrapol2d1, extrapol2dk(-1,0,1/3,1/2,1)}, each side per (in "
+          "pairs), sym, insub, insup (with/without angle), outsub, outsup or dirichlet with per-face data) are run through the real "
+          "fvm2d.rhs together with their transposed and x-/y-reflected twins (tags, velocity components, inlet angles and dirichlet "
+          "arrays transformed); 1D-varying data (along x or y, zero or uniform transverse velocity) are compared row by row with the "
+          "real 1D euler1d operator with the same flux/reconstruction/boundary conditions.  tol 1e-11 on the flux scale.  "
+          "non-trivial: every case (random non-uniform data); distinct = hash(config + data).")
+
+_m("C16", "always-on monitor on every namedBC dispatch: the returned state is tested against the definitional identities of the "
+          "condition (imposed/kept total pressure and temperature, pressure, entropy, Riemann invariants, Rankine-Hugoniot "
+          "relations in the shock frame, flow direction, mirror state and zero wall mass/energy flux through the real flux "
+          "functions).  Workload: inverse construction (boundary state chosen first, parameters and compatible interior states "
+          "derived; 64 states per call, Mach 0.02-5, rho,p over 10^+-3, gamma in (1,2], dir=-1/+1; 2D all four sides, any flow "
+          "angle, insup with/without angle), dirichlet for every model and parameter shape, and boundary dispatches made by "
+          "real 1D/2D rhs calls.  non-trivial: every call; distinct = hash(condition, side, gamma, first states).")
+
+_m("C17", "states with rho,p over 12 decades, Mach 1e-3..10 (and exactly 0), any direction in 2D (incl. axis-aligned), gamma in (1,2], "
+          "on 1D meshes of 1-40 cells / 2D grids up to 6x6: the real prim2cons -> cons2prim round trip and every name returned by "
+          "list_var() (through field.phydata -> model.nameddata, dispatches counted by a hook) are compared with textbook "
+          "definitions computed from the generating primitive state, with the energy-conditioning factor; shapes (ncell,) / "
+          "(2,ncell) asserted; nozzle massflow includes a random section law; shallow water, convection, Burgers likewise.  "
+          "non-trivial: every case; distinct = hash(model, gamma, first states).",
+   exhaustive_groups=["variable names: every name in list_var() of every model"])
+
+_m("C18", "always-on monitors on every model.timestep and calc_timestep call: per cell, dt * rho(A) / (CFL * size) must be 1, rho(A) being "
+          "the largest eigenvalue magnitude of the central-difference Jacobian of the model's own consistent flux F(W,W) (2D: along "
+          "the velocity direction; size = face spacing in 1D, dx*dy/(dx+dy) in 2D, recomputed from the geometry); the same real "
+          "function is re-invoked for the proportionality (2x CFL, 4x size, bitwise) and locality (other cells rescaled) twins.  "
+          "Workload: all 1D models on all meshes with Mach/Froude up to 10, ratios up to 1e4, at rest, CFL over 10^+-3; 2D random "
+          "grids incl. rest, hypersonic and axis-aligned flow; real solves (global and dtlocal) whose recorded main-step arguments "
+          "must equal min over cells / the cell array.  non-trivial: every case; distinct = hash(config + data + CFL).")
